@@ -185,7 +185,7 @@ def leg_errors(part, tier, shard, nshards):
 
 
 def success_cases(tier):
-    vals = list(itertools.islice(gen.json_values(2 if tier == "thorough" else 1, 2), 60000))
+    vals = list(itertools.islice(gen.json_values(2 if tier == "thorough" else 1, 2), 200000))
     for v in vals:
         for form in ("2.0", "2.0-null-error", "1.0"):
             for entry in ENTRIES:
